@@ -246,6 +246,7 @@ type genState struct {
 	nextNode int
 	nconf    int
 	variant  string
+	nodeCap  int64
 }
 
 func (g *genState) pick(l []string) string {
@@ -276,8 +277,16 @@ func (g *genState) opNodeAdd() CoreOp {
 	id := fmt.Sprintf("node-%d", g.nextNode)
 	g.nodes = append(g.nodes, id)
 	if g.variant == "reserve" {
-		// small nodes: the cluster fills up and asks have to wait for a reservation
-		return CoreOp{Kind: "node_add", Node: id, Cap: g.r.res(g.ntypes, 3, 9, false), Drain: g.r.Chance(5)}
+		// equal sized nodes: asks of a bit more than half a node fragment the cluster, so that there is
+		// queue headroom (free space in the cluster) while no single node fits the next ask
+		if g.nodeCap == 0 {
+			g.nodeCap = int64(8 + g.r.Intn(5))
+		}
+		c := CoreRes{}
+		for i := 0; i < g.ntypes; i++ {
+			c[coreTypes[i]] = g.nodeCap
+		}
+		return CoreOp{Kind: "node_add", Node: id, Cap: c, Drain: g.r.Chance(4)}
 	}
 	return CoreOp{Kind: "node_add", Node: id, Cap: g.r.res(g.ntypes, 6, 24, false), Drain: g.r.Chance(8)}
 }
@@ -326,8 +335,12 @@ func (g *genState) opAsk() CoreOp {
 		return g.opAppAdd()
 	}
 	op := CoreOp{Kind: "alloc", App: app, Key: g.newKey(app), Res: g.r.res(g.ntypes, 1, 7, true), Prio: int32(g.r.Intn(4)), AgeSec: int64(3600 + g.r.Intn(100))}
-	if g.variant == "reserve" {
-		op.Res = g.r.res(g.ntypes, 2, 7, false)
+	if g.variant == "reserve" && g.nodeCap > 0 {
+		if g.r.Chance(60) {
+			op.Res = g.r.res(g.ntypes, g.nodeCap/2+1, g.nodeCap-2, false)
+		} else {
+			op.Res = g.r.res(g.ntypes, 1, 3, false)
+		}
 	}
 	if tgs, ok := g.gangApps[app]; ok {
 		op.TaskGroup = g.pick(tgs)
@@ -517,7 +530,7 @@ func genCoreCase(rng *Rng, maxOps int, variant string) (*CoreCase, error) {
 	// a small cluster first
 	nn := 1 + rng.Intn(3)
 	if variant == "reserve" {
-		nn = 1 + rng.Intn(2)
+		nn = 2 + rng.Intn(2)
 	}
 	for i := 0; i < nn; i++ {
 		emit(g.opNodeAdd())
